@@ -134,6 +134,7 @@ type world struct {
 
 	globals      map[*ssa.Global]*value
 	globalStored map[*ssa.Global]bool
+	poisoned     map[*ssa.Global]string
 	inited       map[*ssa.Package]bool
 	initFail     map[*ssa.Package]string
 	initTargets  map[*ssa.Package]map[*ssa.Global]bool
@@ -194,6 +195,7 @@ func newWorld(id int, ex *explorer) (*world, error) {
 		id: id, ex: ex, prog: ex.prog, tc: newTermCtx(), sv: sv,
 		globals:      make(map[*ssa.Global]*value),
 		globalStored: make(map[*ssa.Global]bool),
+		poisoned:     make(map[*ssa.Global]string),
 		inited:       make(map[*ssa.Package]bool),
 		initFail:     make(map[*ssa.Package]string),
 		initTargets:  make(map[*ssa.Package]map[*ssa.Global]bool),
@@ -233,6 +235,9 @@ func (w *world) global(g *ssa.Global) *value {
 }
 
 func (w *world) checkPoison(g *ssa.Global) {
+	if msg, bad := w.poisoned[g]; bad && w.inInit == 0 {
+		panic(unsupported(fmt.Sprintf("read of global %s whose initialiser could not be executed (%s)", g, msg)))
+	}
 	if g.Pkg == nil {
 		return
 	}
@@ -753,35 +758,41 @@ func (w *world) assert(condv value, id string) {
 		return
 	}
 	neg := w.tc.Not(cond)
-	// known-finding regions are excluded from the violation query
-	q := neg
+	// Known-finding regions are excluded from the violation query; the path then
+	// continues outside the region only (inside it this assertion is already a
+	// recorded finding, and later assertions on those inputs are moot).
+	excl := w.tc.tt
 	for _, kr := range w.ex.knownExcl {
 		if kr.assertID == id {
 			if ex := kr.exclusion(w); ex != nil {
-				q = w.tc.And(q, ex)
+				excl = w.tc.And(excl, ex)
 			}
 		}
 	}
-	var r satResult
+	q := w.tc.And(neg, excl)
 	if w.replaying() {
 		// deterministic re-execution: the outcome was decided before
 		w.pos++
-		if q == neg {
-			w.addPC(cond)
-		}
+		w.addPC(excl)
+		w.addPC(cond)
 		return
-	} else {
-		w.checkStop()
-		r = w.feasible(q)
 	}
+	w.checkStop()
+	if !excl.isTrue() {
+		if w.feasible(excl) == rUnsat {
+			// the whole path lies inside a known region
+			w.recordObl(id, func(o *oblStat) { o.Checked++; o.Discharged++ })
+			panic(engineAbort{kind: abDropped})
+		}
+	}
+	r := w.feasible(q)
 	switch r {
 	case rUnsat:
 		w.recordObl(id, func(o *oblStat) { o.Checked++; o.Discharged++ })
 		w.decisions = append(w.decisions, 0)
 		w.pos++
-		if q == neg {
-			w.addPC(cond)
-		}
+		w.addPC(excl)
+		w.addPC(cond)
 	case rSat:
 		w.recordObl(id, func(o *oblStat) { o.Checked++; o.Violated++ })
 		w.reportViolation("assert", id, "assertion "+id+" can be false", q)
@@ -793,6 +804,7 @@ func (w *world) assert(condv value, id string) {
 		w.ex.mu.Unlock()
 		w.decisions = append(w.decisions, 0)
 		w.pos++
+		w.addPC(excl)
 		w.addPC(cond)
 	}
 }
